@@ -40,9 +40,11 @@ for i in sorted(d for d in os.listdir(os.path.join(HERE, "seeded")) if os.path.i
     allrows.append((i, m["property"], cb.get("caught"), cb.get("harness_error"), [tuple(x) for x in cb.get("sub_checks_and_signatures", [])], conf, cb.get("tier"), m.get("neutralised")))
 with open(os.path.join(HERE, "seeded", "REPORT.md"), "w") as f:
     f.write("# Seeded property-breaking changes vs. the checks\n\n")
-    f.write("Each change was written by an independent sub-agent that saw only the property text and a scratch worktree (ids `-mN`: first wave,\n"
-            "`-w2mN`: second wave, told which mechanisms had been used before); each passes the 463-test baseline and has a demo that exits 1 with\n"
-            "the change and 0 without (columns 'baseline' / 'demo').  Outcomes are recorded by tools/seeded_report.py in each meta.json.\n\n")
+    f.write("Each change was written by an independent sub-agent that saw only the property text and a scratch worktree (ids `-mN`: first wave;\n"
+            "`-w2mN`, `-w3mN`, `-w4mN`: later waves, told which mechanisms had been used before); each passes the 463-test baseline and has a demo\n"
+            "that exits 1 with the change and 0 without (columns 'baseline' / 'demo'; column '/repo' is the library commit the run was made against).\n"
+            "Patches that stopped applying after later `fix:` commits were re-created against the new HEAD (`rebased` in meta.json).  Outcomes are\n"
+            "recorded by tools/seeded_report.py in each meta.json.\n\n")
     n_c = sum(1 for r in allrows if r[2])
     n_n = sum(1 for r in allrows if r[7] and not r[2])
     f.write("%d changes recorded, %d caught by the %s tier of their property's check, %d no longer property-breaking on the current /repo "
